@@ -6,6 +6,9 @@
 # EVAL_CHECKS=targeted: for the breaking changes only the check of the property each one targets is run (refactorings: always all 20).
 HERE="$(cd "$(dirname "$0")/.." && pwd)"
 cd "$HERE"
+# one evaluation at a time (two of them write the same meta.json files and saturate the machine); to stop one: kill its xargs (pgrep -a xargs)
+exec 9>/tmp/eval_all_seeded.lock
+flock -n 9 || { echo "another bin/eval_all_seeded.sh is running"; exit 2; }
 [ $# -eq 0 ] && set -- ""
 for pre in "$@"; do ls -d seeded/${pre}*/ 2>/dev/null; done | sort -u | while read d; do
   n=$(basename "$d"); [ -f "$d/patch.diff" ] && echo "$n"
